@@ -113,6 +113,8 @@ def step(S, x, events=None):
                 if len(options) == 1 and len(cands) == 1:
                     ev(cands[0][0])
                     ev('move_up' if dd > 0 else 'move_down')
+                    if events is not None:
+                        events.setdefault('moved_markers', []).append(i)
             nxt.extend(outs)
         states = nxt
         if len(states) > 16:
@@ -202,3 +204,31 @@ def small_quantile_ok(obs, values, mids):
         if abs(Fraction(obs) - m) <= Fraction(math.ulp(mf)):
             return True
     return False
+
+
+def mirror_exact(p, xs):
+    """Is the P-square run on xs exactly mirror-symmetric, i.e. must Q_p(x) == -Q_(1-p)(-x)
+    hold?  The paper adjusts markers 2,3,4 in that order, each reading its neighbours'
+    current values and positions, so the algorithm itself is NOT mirror-symmetric in general:
+    a marker that could not move because its neighbour had not moved yet can move in the
+    mirrored run.  The runs are exact mirror images as long as, in every step, both runs move
+    mirror-image sets of markers, no two adjacent markers move, no observation equals a
+    marker height (the cell search is half-open) and no decision is a near-tie."""
+    if len(xs) < 5:
+        return True
+    A = init_state(p, xs[:5])
+    B = init_state(1.0 - p, [-x for x in xs[:5]])
+    for x in xs[5:]:
+        if any(x == v for v in A.q) or any(-x == v for v in B.q):
+            return False
+        ea, eb = {}, {}
+        sa, sb = step(A, x, ea), step(B, -x, eb)
+        if len(sa) > 1 or len(sb) > 1:
+            return False
+        ma, mb = ea.get('moved_markers', []), eb.get('moved_markers', [])
+        if sorted(4 - i for i in mb) != sorted(ma):
+            return False
+        if any(b - a == 1 for a, b in zip(ma, ma[1:])):
+            return False
+        A, B = sa[0], sb[0]
+    return True
